@@ -481,6 +481,9 @@ class TrimWhitespaces(FullAstVisitor):
                 # files([...]) -> files(...), unless that would drop a comment
                 # attached to the brackets
                 dropped = [arg.lbracket, arg.rbracket, arg, node.args, *node.args.commas]
+                if not arg.args.arguments and not arg.args.kwargs:
+                    # the whitespaces of `[` are moved there when the array is empty
+                    dropped.append(arg.args)
                 if any(n.whitespaces and '#' in n.whitespaces.value for n in dropped):
                     break
                 node.args = arg.args
